@@ -31,6 +31,8 @@ class Arr:
     def __init__(self, name='arr', default=None, offset=0, base=None, shape=None):
         self.name = name; self.default = default
         self.shape = shape
+        self.dims = None           # C array dimensions (row-major) when declared as a stack array
+        self.extent = None         # total number of elements of the declared array (for bounds analysis)
         self.store = {} if base is None else base.store
         self.base = base if base is not None else self
         self.offset = offset
@@ -38,7 +40,17 @@ class Arr:
         self.reads = [] if base is None else base.reads        # keys read, in program order (cleared by clients)
 
     def view(self, offset):
-        return Arr(self.name, self.default, self.offset + offset, self.base)
+        v = Arr(self.name, self.default, self.offset + offset, self.base)
+        v.extent = self.base.extent
+        return v
+
+    def sub(self, i):
+        """a[i] of a multi-dimensional C array: the row view"""
+        stride = 1
+        for dmn in self.dims[1:]: stride *= dmn
+        v = self.view(i * stride)
+        v.dims = self.dims[1:]
+        return v
 
     def _key(self, idx):
         if isinstance(idx, tuple):
@@ -482,6 +494,7 @@ class Interp:
                  'sizeof', 'copysign', 'hypot', 'prange', 'atan2', 'signbit', 'isfinite', 'log2', 'ldexp', 'frexp', 'DBL_MAX', 'DBL_MIN', 'DBL_EPSILON'):
             return self.external('libc.math', n)
         if n == '__cast__': return Builtin('__cast__')
+        if n == '__carray__': return Builtin('__carray__')
         if n == '__addr__': return Builtin('__addr__')
         raise AnalysisError(f'{mod.rel()}: unresolved name {n}')
 
@@ -561,6 +574,7 @@ class Interp:
         v = self.eval(e.operand, fr)
         if isinstance(e.op, ast.USub):
             if isinstance(v, (int, Fraction)) and not isinstance(v, bool): return -v
+            if isinstance(v, Opaque): return Opaque('arith')
             return X.neg(to_node(v))
         if isinstance(e.op, ast.UAdd):
             return v
@@ -606,6 +620,8 @@ class Interp:
             base = self.eval(target.value, fr)
             if isinstance(base, Arr):
                 idx = self.index(target.slice, fr)
+                if base.dims and len(base.dims) > 1 and isinstance(idx, int):
+                    return base.sub(idx)
                 if isinstance(idx, tuple):
                     # &m[i][j] style handled as nested Subscript, tuple index means 2-d memoryview &a[i, j]
                     raise AnalysisError('address of tuple-indexed element')
@@ -770,6 +786,8 @@ class Interp:
             return base           # typing subscripts etc.
         idx = self.index(e.slice, fr)
         if isinstance(base, Arr):
+            if base.dims and len(base.dims) > 1 and isinstance(idx, int):
+                return base.sub(idx)
             return base.get(idx)
         if isinstance(base, (tuple, list)):
             return base[idx]
@@ -892,6 +910,19 @@ class Interp:
         nm = name.split('.')[-1]
         if name.startswith('conj_of:'):
             return X.fn('conj', X.node_by_uid(int(name.split(':')[1])))
+        if nm == '__carray__':
+            dims = []
+            for a in args[1:]:
+                c = concrete(a)
+                if not isinstance(c, int):
+                    raise AnalysisError(f'{fr.mod.where(e)}: C array with a non-constant extent')
+                dims.append(c)
+            arr = Arr(f'carray<{args[0]}>{dims}')
+            arr.dims = tuple(dims)
+            ext = 1
+            for dmn in dims: ext *= dmn
+            arr.extent = ext
+            return arr
         if nm == 'range':
             vals = []
             for a in args:
